@@ -194,7 +194,7 @@ func (e *Engine) compSortGuess(u *Unit, c string) string {
 	switch c {
 	case "ctr":
 		return "Int"
-	case "ChRecv", "ChSentN", "ChClosed":
+	case "ChRecv", "ChSentN", "ChClosed", "RangePos":
 		return "(Array Int Int)"
 	case "ChStamp":
 		return "(Array Int (Array Int Int))"
@@ -309,6 +309,15 @@ func (e *Engine) instrMods(ins ssa.Instruction, out map[string]bool, depth int) 
 	case *ssa.UnOp:
 		if x.Op == token.ARROW {
 			out["ChRecv"] = true
+		}
+	case *ssa.Range:
+		if _, isM := x.X.Type().Underlying().(*types.Map); isM {
+			out["RangePos"] = true
+			out["ctr"] = true
+		}
+	case *ssa.Next:
+		if !x.IsString {
+			out["RangePos"] = true
 		}
 	case *ssa.Call:
 		e.callMods(&x.Call, out, depth)
